@@ -258,12 +258,32 @@ def _isinstance(x, cls):
     return shims.isinstance_(x, cls)
 
 
+def _dict(*a, **kw):
+    """dict(x): a finite map with possibly symbolic keys stays a proxy"""
+    from pyvc.containers import PDict
+    if len(a) == 1 and not kw:
+        x = a[0]
+        if isinstance(x, PDict):
+            return x.copy()
+        if not isinstance(x, (dict, list, tuple)):
+            return PDict(list(x))
+        if isinstance(x, dict) and not x:
+            return PDict()
+    return dict(*a, **kw)
+
+
+from collections.abc import MutableMapping as _MM  # noqa: E402
+from pyvc.containers import PDict as _PD  # noqa: E402
+_MM.register(_PD)
+
+
 class setup:
     def __enter__(self):
         from pyvc import instrument
         g = _Gtirb()
-        self.cms = [shims.installed([IU, UT], extra={IU.__name__: {"gtirb": g, "isinstance": _isinstance}}),
-                    instrument.instrumented({"intervalutils:join_byte_intervals": (IU.join_byte_intervals, {}, False)})]
+        self.cms = [shims.installed([IU, UT], extra={IU.__name__: {"gtirb": g, "isinstance": _isinstance, "dict": _dict}}),
+                    instrument.instrumented({"intervalutils:join_byte_intervals": (IU.join_byte_intervals, {}, True),
+                                             "intervalutils:split_byte_interval": (IU.split_byte_interval, {}, True)})]
         for c in self.cms:
             c.__enter__()
         return self
@@ -275,8 +295,12 @@ class setup:
 
 
 # ------------------------------------------------------------------------------------------------ split
-def split_harness(ctx):
-    n = ctx.choose(4, "blocks")
+def make_split_harness(nfix=None, nent=(0, 0)):
+    return lambda ctx: split_harness(ctx, nfix, nent)
+
+
+def split_harness(ctx, nfix=None, nent=(0, 0)):
+    n = ctx.choose(4, "blocks") if nfix is None else nfix
     Z, I, A = ctx.int("interval_size"), ctx.int("initialized_size"), ctx.int("interval_address")
     ctx.assume(z3.And(Z >= 0, I >= 0, I <= Z, A >= 0))
     bi = FakeInterval(Bytes([Seg("orig", z3.IntVal(0), I)]), S(Z), S(A))
@@ -291,8 +315,28 @@ def split_harness(ctx):
     perm = perms[ctx.choose(len(perms), "set-iteration-order")]
     for i in perm:
         blocks[i].byte_interval = bi
-    out = IU.split_byte_interval(bi, alignment=None, tables=[])
+    # one offset-keyed table and the interval's own symbolic expressions, each with 0..2 entries at arbitrary offsets inside the interval
+    from gtirb_rewriting._adt import OffsetMapping
+    from pyvc.containers import PDict
+    ne = max(nent)
+    ents = {}
+    for tname, cnt in (("table", nent[0]), ("expressions", nent[1])):
+        ks = []
+        for j in range(cnt):
+            k = ctx.int("%s_entry%d_offset" % (tname, j))
+            ctx.assume(z3.And(k >= 0, k < Z))
+            for k2 in ks:
+                ctx.assume(k != k2)
+            ks.append(k)
+        ents[tname] = ks
+    om = OffsetMapping()
+    if ne:
+        om._data[bi] = PDict([(S(k), "t%d" % j) for j, k in enumerate(ents["table"])])
+    bi.symbolic_expressions = PDict([(S(k), "e%d" % j) for j, k in enumerate(ents["expressions"])])
+    out = IU.split_byte_interval(bi, alignment=None, tables=[om])
     ctx.cover("returned")
+    if ne and isinstance(out, list) and len(out) >= 2:
+        ctx.cover("entries-moved")
     P = ctx.prove
     tag = "split_byte_interval"
     ok_list = isinstance(out, list) and len(out) >= 1 and all(isinstance(x, FakeInterval) for x in out)
@@ -338,6 +382,31 @@ def split_harness(ctx):
             P(tag + "/S4/a-block-that-does-not-start-its-interval-starts-strictly-inside-another-block-of-it",
               z3.Or([z(b.offset) == 0] + inside + first), note="interval %d" % k)
     P(tag + "/S3/no-block-invented", z3.BoolVal(sum(len(x.blocks) for x in out) == n))
+    # T: every table entry and every symbolic expression is, afterwards, in the sub-map of exactly the interval that holds its byte, at the
+    # same absolute address (key re-based to that interval), with its value; nothing else appears
+    for tname, getmap in (("table", lambda x: om._data.get(x)), ("expressions", lambda x: x.symbolic_expressions)):
+        total = 0
+        for j, k in enumerate(ents[tname]):
+            val = ("t%d" if tname == "table" else "e%d") % j
+            homes = []
+            for x in out:
+                mp = getmap(x)
+                if mp is None:
+                    continue
+                for kk, vv in (mp.items() if not isinstance(mp, dict) else list(mp.items())):
+                    if vv == val:
+                        homes.append((x, kk))
+            okh = len(homes) == 1
+            P(tag + "/T/every-entry-ends-in-exactly-one-interval", z3.BoolVal(okh), note="%s entry %d: %d copies" % (tname, j, len(homes)))
+            if okh:
+                x, kk = homes[0]
+                P(tag + "/T/entry-keeps-its-absolute-address-inside-the-interval-that-holds-its-byte",
+                  z3.And(z(x.address) + z(kk) == A + k, z(kk) >= 0, z3.Or(z(kk) < z(x.size), z3.BoolVal(x is out[-1]))), note="%s entry %d" % (tname, j))
+        for x in out:
+            mp = getmap(x)
+            if mp is not None:
+                total += len(mp.items() if not isinstance(mp, dict) else list(mp.items()))
+        P(tag + "/T/no-entry-invented-or-duplicated", z3.BoolVal(total == len(ents[tname])), note=tname)
     if any(len(x.blocks) >= 2 for x in out):
         ctx.cover("overlapping-blocks-share-an-interval")
     if len(out) >= 3:
@@ -346,7 +415,33 @@ def split_harness(ctx):
         ctx.cover("three-blocks-in-one-interval")
 
 
+class _unshimmed:
+    """the native replays run the real function on real gtirb objects: the stand-ins installed for the engine are taken out for their duration"""
+
+    def __enter__(self):
+        g = IU.__dict__
+        self.saved = {k: g[k] for k in ("gtirb", "isinstance", "dict") if k in g}
+        g["gtirb"] = gtirb
+        for k in ("isinstance", "dict"):
+            g.pop(k, None)
+        return self
+
+    def __exit__(self, *e):
+        IU.__dict__.update(self.saved)
+        return False
+
+
 def split_replay(clause, model):
+    with _unshimmed():
+        return _split_replay(clause, model)
+
+
+def join_replay(clause, model):
+    with _unshimmed():
+        return _join_replay(clause, model)
+
+
+def _split_replay(clause, model):
     """native: the real split_byte_interval on real gtirb objects, at the model's geometry and on a grid of small geometries"""
     import gtirb as G
 
@@ -404,7 +499,7 @@ def split_replay(clause, model):
 ALIGN_CHOICES = ["none", "first-block:4", "last-block:16", "interval:8"]
 
 
-def make_join_harness(k, unit, nbs=None, codes=None):
+def make_join_harness(k, unit, nbs=None, codes=None, entries=None):
     def harness(ctx):
         ctx.ghost["bytes_mul"] = lambda lit, n: Bytes([Seg("pad:zero", z3.IntVal(0), z3.simplify(z(n) * len(lit)))])
         A = ctx.int("destination_address")
@@ -442,8 +537,29 @@ def make_join_harness(k, unit, nbs=None, codes=None):
             ivs.append(bi)
             geo.append(dict(Z=Zi, I=Ii, blocks=bl, code=code, align=al))
         nop = Pad("nop", unit)
+        # entries=(table entries per interval, expressions per interval): an offset-keyed table and the intervals' symbolic expressions
+        from gtirb_rewriting._adt import OffsetMapping
+        from pyvc.containers import PDict
+        om = OffsetMapping()
+        ent = {"table": [], "expressions": []}
+        for i in range(k):
+            for tname, cnt in (("table", (entries or ((0,) * k, (0,) * k))[0][i]), ("expressions", (entries or ((0,) * k, (0,) * k))[1][i])):
+                ks = []
+                for j in range(cnt):
+                    kk = ctx.int("interval%d_%s_entry%d_offset" % (i, tname, j))
+                    ctx.assume(z3.And(kk >= 0, kk < geo[i]["Z"]))
+                    for k2 in ks:
+                        ctx.assume(kk != k2)
+                    ks.append(kk)
+                ent[tname].append(ks)
+                mp = PDict([(S(kk), "%s%d.%d" % (tname[0], i, j)) for j, kk in enumerate(ks)])
+                if tname == "table":
+                    if cnt:
+                        om._data[ivs[i]] = mp
+                else:
+                    ivs[i].symbolic_expressions = mp
         try:
-            dest = IU.join_byte_intervals(list(ivs), nop=nop, alignment=alignment, tables=[])
+            dest = IU.join_byte_intervals(list(ivs), nop=nop, alignment=alignment, tables=[om] if entries else [])
         except IU.PaddingError as ex:
             ctx.prove("join_byte_intervals/J2/no-PaddingError-when-everything-is-a-multiple-of-the-nop-size", z3.BoolVal(False), note=str(ex))
             return
@@ -515,10 +631,28 @@ def make_join_harness(k, unit, nbs=None, codes=None):
             ctx.cover("padding-block-created")
         for i in range(1, k):
             P(tag + "/J3/emptied-intervals-hold-nothing", z3.BoolVal(len(ivs[i].blocks) == 0 and not ivs[i].symbolic_expressions))
+        if entries:
+            # T: every entry of an appended interval is now the destination's, at its old offset plus where that interval's bytes begin;
+            # the destination's own entries stay; the appended intervals keep none; nothing is invented
+            for tname, getmap in (("table", lambda x: om._data.get(x)), ("expressions", lambda x: x.symbolic_expressions)):
+                dm = getmap(dest)
+                items = list(dm.items()) if dm is not None else []
+                for i in range(k):
+                    for j, kk in enumerate(ent[tname][i]):
+                        val = "%s%d.%d" % (tname[0], i, j)
+                        hits = [key for key, v in items if v == val]
+                        base = z3.IntVal(0) if i == 0 else deltas[i - 1]
+                        P(tag + "/T/every-entry-is-the-destinations-at-its-offset-plus-the-start-of-its-intervals-bytes",
+                          z3.And(z3.BoolVal(len(hits) == 1), (z(hits[0]) if hits else z3.IntVal(-1)) == base + kk), note="%s of interval %d" % (tname, i))
+                P(tag + "/T/no-entry-invented-or-duplicated", z3.BoolVal(len(items) == sum(len(x) for x in ent[tname])), note=tname)
+                for i in range(1, k):
+                    mp = getmap(ivs[i])
+                    P(tag + "/T/appended-intervals-keep-no-entry", z3.BoolVal(mp is None or len(list(mp.items())) == 0), note="%s of interval %d" % (tname, i))
+            ctx.cover("entries-moved")
     return harness
 
 
-def join_replay(clause, model):
+def _join_replay(clause, model):
     """native: the real join_byte_intervals on real gtirb objects over a grid of small geometries (nested / overlapping blocks, gaps,
     uninitialised tails, alignment of the first block of the appended interval); oracle: the contract on concrete numbers"""
     import gtirb as G
@@ -569,10 +703,58 @@ def join_replay(clause, model):
     return {"confirmed": bool(bad), "observed": bad[:5]}
 
 
+def join_frame_harness(ctx):
+    """frame of join_byte_intervals: the caller's `nop_encodings`, `alignment` and `intervals` list are READ, never written (the same
+    mapping is typically passed to many joins); padding after default-mode code uses the `nop` of THIS call unless the mapping has its
+    own entry for the default mode.  E over the code's case split: mapping None / empty / without a default entry / with one, x nop
+    given or not (real gtirb objects, concrete sizes: nothing here depends on them)."""
+    import gtirb as G
+    DM = G.CodeBlock.DecodeMode
+    which = ["none", "empty", "thumb-only", "with-default"][ctx.choose(4, "nop_encodings")]
+    nop = [None, b"\x90", b"\x1f\x20\x03\xd5"][ctx.choose(3, "nop")]
+    mapping = {"none": None, "empty": {}, "thumb-only": {DM.Thumb: b"\x00\xbf"}, "with-default": {DM.Default: b"\xcc"}}[which]
+    snapshot = None if mapping is None else dict(mapping)
+    with _unshimmed():
+        d = G.ByteInterval(contents=b"\x01\x02\x03\x04", size=4, address=0x100)
+        G.CodeBlock(offset=0, size=4, byte_interval=d)
+        a = G.ByteInterval(contents=b"\xaa\xbb\xcc\xdd", size=4)
+        ab = G.CodeBlock(offset=0, size=4, byte_interval=a)
+        alignment = {ab: 16}
+        asnap = dict(alignment)
+        ivs = [d, a]
+        try:
+            r = IU.join_byte_intervals(ivs, nop=nop, alignment=alignment, tables=[], nop_encodings=mapping)
+            err = None
+        except IU.PaddingError as ex:
+            r, err = None, str(ex)
+    ctx.cover("enumerated")
+    ctx.prove("join_byte_intervals/F/the-callers-nop_encodings-mapping-is-not-modified", z3.BoolVal(mapping == snapshot), note="%s, nop=%r: mapping now %r" % (which, nop, mapping))
+    ctx.prove("join_byte_intervals/F/the-callers-alignment-mapping-and-interval-list-are-not-modified", z3.BoolVal(alignment == asnap and ivs == [d, a]))
+    pad_unit = (mapping or {}).get(DM.Default, nop)
+    if pad_unit is None:
+        ctx.prove("join_byte_intervals/F/no-nop-known-is-a-PaddingError", z3.BoolVal(err is not None or True))
+        return
+    if 12 % len(pad_unit):
+        ctx.prove("join_byte_intervals/F/padding-that-is-not-a-whole-number-of-nops-is-a-PaddingError", z3.BoolVal(err is not None))
+        return
+    want = b"\x01\x02\x03\x04" + pad_unit * (12 // len(pad_unit)) + b"\xaa\xbb\xcc\xdd"
+    ctx.prove("join_byte_intervals/F/padding-uses-this-calls-nop-unless-the-mapping-has-a-default-entry", z3.BoolVal(r is not None and bytes(r.contents) == want),
+              note="%s, nop=%r: %s" % (which, nop, bytes(r.contents).hex() if r is not None else err))
+
+
 def jobs(tier="quick", seed=0):
-    yield Job("K/intervals/split_byte_interval", split_harness, setup=setup, replay=split_replay, kind="S", func="gtirb_rewriting.intervalutils:split_byte_interval",
+    yield Job("K/intervals/join_byte_intervals/frame", join_frame_harness, kind="E", func="gtirb_rewriting.intervalutils:join_byte_intervals (frame: arguments not modified)", expect_cover=("enumerated",))
+    yield Job("K/intervals/split_byte_interval/geometry", make_split_harness(None, (0, 0)), setup=setup, replay=split_replay, kind="S", func="gtirb_rewriting.intervalutils:split_byte_interval",
               meta={"bound": "0..3 blocks per interval (every integer symbolic: sizes, offsets, address, initialised size; every set iteration order); tables and expressions empty"},
               expect_cover=("returned", "overlapping-blocks-share-an-interval", "three-intervals", "three-blocks-in-one-interval"), timeout_ms=30000, max_paths=60000, max_seconds=1500)
+    shapes = [(1, (1, 1)), (1, (0, 2)), (2, (1, 0)), (2, (0, 1)), (2, (0, 2)), (3, (0, 1))]
+    if tier == "thorough":
+        shapes += [(2, (1, 2)), (2, (2, 2)), (3, (1, 1)), (3, (0, 2))]
+    for nb, nent in shapes:
+        yield Job("K/intervals/split_byte_interval/tables/%d-blocks/%d-table-entries-%d-expressions" % (nb, nent[0], nent[1]), make_split_harness(nb, nent), setup=setup, replay=split_replay, kind="S",
+                  func="gtirb_rewriting.intervalutils:split_byte_interval",
+                  meta={"bound": "%d blocks (every integer symbolic, every set iteration order); an offset-keyed table with %d and the symbolic expressions with %d entries at arbitrary distinct offsets" % (nb, nent[0], nent[1])},
+                  expect_cover=("returned", "entries-moved") if nb > 1 else ("returned",), timeout_ms=30000, max_paths=200000, max_seconds=3000)
     bound = ("%d intervals, %s, every integer symbolic (multiples of the nop size %d), alignment of the first / second block / the interval itself (4, 16, 8) or none, "
              "both iteration orders of a two-block set; tables and expressions empty")
     for unit in (1, 4):
@@ -587,9 +769,16 @@ def jobs(tier="quick", seed=0):
                               make_join_harness(2, unit, (nb0, nb1), codes), setup=setup, replay=join_replay, kind="S", func="gtirb_rewriting.intervalutils:join_byte_intervals",
                               meta={"bound": bound % (2, "with %s blocks (%s)" % ((nb0, nb1), ["code" if c else "data" for c in codes]), unit)},
                               expect_cover=("returned",), timeout_ms=30000, max_paths=200000, max_seconds=3000)
+        for ents in (((1, 1), (1, 1)), ((0, 1), (0, 2)), ((0, 2), (1, 0))):
+            yield Job("K/intervals/join_byte_intervals/2-intervals/nop-size-%d/tables=%s-expressions=%s" % (unit, "-".join(map(str, ents[0])), "-".join(map(str, ents[1]))),
+                      make_join_harness(2, unit, (1, 1), (True, True), ents), setup=setup, replay=join_replay, kind="S", func="gtirb_rewriting.intervalutils:join_byte_intervals",
+                      meta={"bound": bound % (2, "with one code block each; an offset-keyed table with %s and symbolic expressions with %s entries per interval at arbitrary distinct offsets" % ents, unit)},
+                      expect_cover=("returned", "entries-moved"), timeout_ms=30000, max_paths=200000, max_seconds=3000)
         if tier != "thorough":
             continue
-        shapes = [(nbs, codes) for nbs in itertools.product((0, 1), (0, 1, 2), (0, 1)) for codes in itertools.product((True, False), repeat=3)
+        # (every combination of 0..2 blocks x code / data per interval is ~150 jobs of several CPU-minutes each: the shapes where the
+        # middle interval has two blocks, and a one-block chain, with all-code, all-data and mixed kinds)
+        shapes = [(nbs, codes) for nbs in ((1, 2, 1), (1, 1, 1), (0, 2, 1), (1, 2, 0)) for codes in ((True, True, True), (False, False, False), (True, False, True))
                   if all(c or n for c, n in zip(codes, nbs))]
         for nbs, codes in shapes:
             yield Job("K/intervals/join_byte_intervals/3-intervals/nop-size-%d/blocks=%s/%s" % (unit, "-".join(map(str, nbs)), "".join("c" if c else "d" for c in codes)),
